@@ -46,13 +46,13 @@ theorem ioClose_spec (s : L) :
     (ioClose s).state = s.state ∧ (ioClose s).chans = s.chans ∧ (ioClose s).timers = s.timers ∧
     (ioClose s).hbRunning = s.hbRunning ∧ (ioClose s).errs = s.errs ∧ (ioClose s).lastId = s.lastId ∧
     (ioClose s).hbInterval = s.hbInterval := by
-  obtain ⟨st, er, ch, li, sock, rd, run, ls, lr, hb, tm, hi⟩ := s
+  obtain ⟨st, er, ch, li, sock, rd, run, stl, ls, lr, hb, tm, hi⟩ := s
   simp only [ioClose, ioCloseWith, ioCloseProgram_eq, List.foldl, ioCloseStep]
   cases sock <;> cases rd <;> simp
 
 /-- `ioClose` written out -/
 theorem ioClose_eq (s : L) : ioClose s = { s with sock := .absent, reader := .absent, ioRunning := false } := by
-  obtain ⟨st, er, ch, li, sock, rd, run, ls, lr, hb, tm, hi⟩ := s
+  obtain ⟨st, er, ch, li, sock, rd, run, stl, ls, lr, hb, tm, hi⟩ := s
   simp only [ioClose, ioCloseWith, ioCloseProgram_eq, List.foldl, ioCloseStep]
   cases sock <;> cases rd <;> simp
 
@@ -70,7 +70,7 @@ theorem closeConn_eq (s : L) (e : CloseEnd) (race : Bool) :
                 hbRunning := false, timers := 0,
                 errs := if s.state ≠ closed ∧ s.sock ≠ .absent ∧ e = .error then s.errs + 1 else s.errs }, false) := by
   obtain ⟨_, _, hu⟩ := closeRemaining_eq
-  obtain ⟨st, er, ch, li, sock, rd, run, ls, lr, hb, tm, hi⟩ := s
+  obtain ⟨st, er, ch, li, sock, rd, run, stl, ls, lr, hb, tm, hi⟩ := s
   simp only [closeConn, closeWith, closeProgram_eq, List.foldl, closeStep, hb_stop_wins, Bool.and_false,
     Bool.false_eq_true, false_and, if_false, closeChannels, hu, if_true, ioClose_eq, closed_eq, closing_eq]
   by_cases h1 : st = 0
@@ -102,11 +102,11 @@ theorem cleanup_eq (s : L) : cleanup s = { s with state := closed, sock := .abse
 theorem ioOpen_eq (s : L) (connects : Bool) :
     ioOpen s connects =
       if connects then
-        ({ s with ioRunning := true, sock := .live, reader := .running,
+        ({ s with ioRunning := true, stale := false, sock := .live, reader := .running,
                   leakedSocks := if s.sock = .live then s.leakedSocks + 1 else s.leakedSocks,
                   leakedReaders := if s.reader = .running then s.leakedReaders + 1 else s.leakedReaders }, false)
-      else ({ s with ioRunning := true }, true) := by
-  obtain ⟨st, er, ch, li, sock, rd, run, ls, lr, hb, tm, hi⟩ := s
+      else ({ s with ioRunning := true, stale := false }, true) := by
+  obtain ⟨st, er, ch, li, sock, rd, run, stl, ls, lr, hb, tm, hi⟩ := s
   cases connects <;> simp [ioOpen, ioOpenWith, ioOpenProgram_eq, List.foldl, ioOpenStep]
 
 /-- **A failed open() leaks nothing**: whichever way it fails (connect error, the broker refuses, the
@@ -114,7 +114,7 @@ theorem ioOpen_eq (s : L) (connects : Bool) :
     and the caller gets an exception. -/
 theorem failed_open_clean (s : L) (o : OpenEnd) (ho : o ≠ .ok) (hs : Released s) :
     (openConn s o).2 = true ∧ Released (openConn s o).1 ∧ (openConn s o).1.state ≠ open_ := by
-  obtain ⟨st, er, ch, li, sock, rd, run, ls, lr, hb, tm, hi⟩ := s
+  obtain ⟨st, er, ch, li, sock, rd, run, stl, ls, lr, hb, tm, hi⟩ := s
   obtain ⟨h1, h2, h3, h4, h5, h6⟩ := hs
   simp only at h1 h2 h3 h4 h5 h6
   subst h3 h4 h5 h6
@@ -137,8 +137,8 @@ theorem reopen_fresh (s : L) (hs : Released s) :
     (openConn s .ok).2 = false ∧ (openConn s .ok).1.errs = 0 ∧ (openConn s .ok).1.chans = [] ∧
     (openConn s .ok).1.lastId = none ∧ (openConn s .ok).1.state = open_ ∧ (openConn s .ok).1.sock = .live ∧
     (openConn s .ok).1.reader = .running ∧ (openConn s .ok).1.leakedSocks = 0 ∧ (openConn s .ok).1.leakedReaders = 0 ∧
-    (openConn s .ok).1.timers = (if s.hbInterval > 0 then 1 else 0) := by
-  obtain ⟨st, er, ch, li, sock, rd, run, ls, lr, hb, tm, hi⟩ := s
+    (openConn s .ok).1.timers = (if s.hbInterval > 0 then 1 else 0) ∧ (openConn s .ok).1.stale = false := by
+  obtain ⟨st, er, ch, li, sock, rd, run, stl, ls, lr, hb, tm, hi⟩ := s
   obtain ⟨h1, h2, h3, h4, h5, h6⟩ := hs
   simp only at h1 h2 h3 h4 h5 h6
   subst h3 h4 h5 h6
@@ -184,7 +184,7 @@ theorem step_inv (s s' : L) (op : Op) (h : Inv s) (hs : step s op = some s') : I
       have hrel : Released s := ⟨hsock, hrd, h.1, h.2, (h.4 hsock).1, (h.4 hsock).2⟩
       by_cases ho : o = .ok
       · subst ho
-        obtain ⟨_, _, _, _, _, a6, _, a8, a9, a10⟩ := reopen_fresh s hrel
+        obtain ⟨_, _, _, _, _, a6, _, a8, a9, a10, _⟩ := reopen_fresh s hrel
         refine ⟨a8, a9, ?_, ?_⟩
         · rw [a10]; split <;> simp
         · intro hn; exact absurd a6 hn
@@ -235,6 +235,11 @@ theorem step_inv (s s' : L) (op : Op) (h : Inv s) (hs : step s op = some s') : I
     · cases hs; exact inv_of_same s _ h rfl rfl rfl rfl rfl
     · cases hs
   | die =>
+    simp only [step] at hs
+    split at hs
+    · cases hs; exact inv_of_same s _ h rfl rfl rfl rfl rfl
+    · cases hs
+  | diePartial =>
     simp only [step] at hs
     split at hs
     · cases hs; exact inv_of_same s _ h rfl rfl rfl rfl rfl
@@ -334,6 +339,9 @@ theorem skel_Heartbeat__check_for_life_signs : Gen.Skel.Heartbeat__check_for_lif
 example : (run { hbInterval := 4 } [.openC .ok, .channel 1, .confirm 1, .deliver 1, .chanError 1, .channel 2, .die,
     .closeC .error, .openC .ok]).map (fun s => (s.state, s.chans.length, s.errs, s.sock, s.timers, s.leakedSocks)) =
     some ((3 : Nat), (0 : Nat), (0 : Nat), Sock.live, (1 : Nat), (0 : Nat)) := by decide
+-- the transport died in the middle of a frame: the bytes left in the buffer do not disturb the next open()
+example : (run {} [.openC .ok, .diePartial, .closeC .error, .openC .ok]).map (fun s => (s.state, s.stale, s.leakedSocks)) =
+    some ((3 : Nat), false, (0 : Nat)) := by decide
 -- a failed open followed by a successful one
 example : (run { hbInterval := 2 } [.openC .timeout, .openC .refused, .openC .connectFail, .openC .ok]).map
     (fun s => (s.state, s.sock, s.reader, s.timers, s.leakedSocks, s.leakedReaders)) = some ((3 : Nat), Sock.live, Rd.running, (1 : Nat), (0 : Nat), (0 : Nat)) := by
